@@ -53,6 +53,44 @@ fn main() {
                     Err(_) => println!("PANIC"),
                 }
             }
+            // cache <limit> <time_limit> <size> <n> {<route> <host> <len> <age>}*n <op> <route> <host> [<len>]
+            //   op = set | get ; prints: OK size=<s> items=<route>:<host>:<len>,... get=<route>:<host>:<len>|none   or PANIC
+            "cache" => {
+                use humphrey_server::cache::{Cache, CachedItem};
+                use humphrey::http::mime::MimeType;
+                let nums: Vec<&str> = parts[1..].to_vec();
+                let limit: usize = nums[0].parse().unwrap();
+                let tl: u64 = nums[1].parse().unwrap();
+                let size: usize = nums[2].parse().unwrap();
+                let n: usize = nums[3].parse().unwrap();
+                let now = std::time::SystemTime::now().duration_since(std::time::UNIX_EPOCH).unwrap().as_secs();
+                let mut dq = std::collections::VecDeque::new();
+                for i in 0..n {
+                    let b = 4 + 4 * i;
+                    let len: usize = nums[b + 2].parse().unwrap();
+                    let age: u64 = nums[b + 3].parse().unwrap();
+                    dq.push_back(CachedItem { route: nums[b].to_string(), host: nums[b + 1].parse().unwrap(), mime_type: MimeType::TextHtml, cache_time: now - age, data: vec![i as u8 + 1; len] });
+                }
+                let b = 4 + 4 * n;
+                let op = nums[b].to_string();
+                let route = nums[b + 1].to_string();
+                let host: usize = nums[b + 2].parse().unwrap();
+                let vlen: usize = if op == "set" { nums[b + 3].parse().unwrap() } else { 0 };
+                let r = std::panic::catch_unwind(move || {
+                    let mut c = Cache::verif_from_parts(limit, tl, size, dq);
+                    if op == "set" {
+                        c.set(&route, host, vec![0xEE; vlen], MimeType::TextCss);
+                    }
+                    let got = c.get(&route, host).map(|i| format!("{}:{}:{}:{}", i.route, i.host, i.data.len(), i.data.first().copied().unwrap_or(0))).unwrap_or("none".to_string());
+                    let (_l, _t, sz, items) = c.verif_parts();
+                    let list: Vec<String> = items.iter().map(|i| format!("{}:{}:{}:{}", i.route, i.host, i.data.len(), i.data.first().copied().unwrap_or(0))).collect();
+                    format!("OK size={} items={} get={}", sz, list.join(","), got)
+                });
+                match r {
+                    Ok(s) => println!("{}", s),
+                    Err(_) => println!("PANIC"),
+                }
+            }
             _ => println!("?"),
         }
     }
